@@ -35,6 +35,7 @@ import (
 	sifapp "github.com/Sifchain/sifnode/app"
 	clptypes "github.com/Sifchain/sifnode/x/clp/types"
 	ethbridgetypes "github.com/Sifchain/sifnode/x/ethbridge/types"
+	trtypes "github.com/Sifchain/sifnode/x/tokenregistry/types"
 	sdk "github.com/cosmos/cosmos-sdk/types"
 	banktypes "github.com/cosmos/cosmos-sdk/x/bank/types"
 	"github.com/cosmos/cosmos-sdk/x/capability"
@@ -254,7 +255,7 @@ func emitHistory(out *Out, spec *Spec, execs []Exec, how []string, tag string) {
 				})
 			}
 			stateless := ti < len(b.Stateless) && b.Stateless[ti]
-			if stateless && IsRestartPoint(len(spec.Blocks), bi) && len(restarted) > 0 && len(steady) > 1 {
+			if stateless && spec.IsRestart(bi) && len(restarted) > 0 && len(steady) > 1 {
 				// The position — a stateless-invalid transaction in the first block after a restart — is decided by the
 				// structure of the history, never by the outcome.  Everything except GasUsed must agree across ALL
 				// executions; GasUsed must agree among the executions that were not restarted and among those that
@@ -327,6 +328,10 @@ func mainHistory(seed uint64, rng *Rng, blocks int) *Pilot {
 		// whitelist, policy); later blocks read those objects
 		if b == 6 || p.R.Chance(1, 3) {
 			p.RolledBackEdit()
+		}
+		// the same with a READ of the edited object inside the rejected transaction; the next block is a restart point
+		if b == 8 || p.R.Chance(1, 4) {
+			p.EditReadFail()
 		}
 		k := 3 + p.R.Intn(6)
 		for i := 0; i < k && len(ps) > 0; i++ {
@@ -448,6 +453,59 @@ func restartVBHistory(seed uint64, rng *Rng) *Pilot {
 	return p
 }
 
+// ---- history: poolless-prefix -------------------------------------------------------------------
+// The first blocks have NO pool (no block hook reads the registry or the policies on behalf of every node), the
+// shared objects are first read by transactions, a rejected [edit, read, fail] transaction follows, and only
+// then the first pools are created.  Restart points: before every block from the second on.
+
+func poollessHistory(seed uint64, rng *Rng) *Pilot {
+	p := NewPilot("poolless-prefix", seed, rng, GenesisOpts{NUsers: 4, ValPowers: []int64{10, 10}, EpochSeconds: 3600}, 600)
+	u, v, adm := p.W.Users[0], p.W.Users[1], p.W.Admin
+	swapTo := func(a *Acct, denom string, label string) {
+		m := clptypes.NewMsgSwap(a.Addr, clptypes.GetSettlementAsset(), clptypes.NewAsset(denom), uintOf(pow10(18)), sdk.ZeroUint())
+		p.Tx(label, a, &m)
+	}
+	tooMuch := func() sdk.Msg {
+		return banktypes.NewMsgSend(adm.Addr, u.Addr, sdk.NewCoins(coin("rowan", pow10(40))))
+	}
+	all := []trtypes.Permission{trtypes.Permission_CLP, trtypes.Permission_IBCEXPORT, trtypes.Permission_IBCIMPORT}
+	for b := 0; b < 8; b++ {
+		p.Begin()
+		switch b {
+		case 0: // first readers are transactions: refused for "pool does not exist" after the registry was read
+			swapTo(u, "ceth", "clp.swap.nopool")
+			p.Tx("bank.send", u, banktypes.NewMsgSend(u.Addr, v.Addr, sdk.NewCoins(coin("rowan", pow10(18)))))
+		case 1: // rejected: ceth gets 6 decimals, a swap reads the registry and is refused, nothing may remain
+			edit := &trtypes.MsgRegister{From: adm.Addr.String(), Entry: &trtypes.RegistryEntry{Denom: "ceth", BaseDenom: "ceth", Decimals: 6, Permissions: all}}
+			rd := clptypes.NewMsgSwap(adm.Addr, clptypes.GetSettlementAsset(), clptypes.NewAsset("cnotlisted"), uintOf(pow10(18)), sdk.ZeroUint())
+			p.Tx("multi.registry.redecimal+swap.unlisted", adm, edit, &rd)
+			swapTo(v, "cusdc", "clp.swap.nopool")
+		case 2: // the first pools
+			p.CreatePool(u, "ceth")
+			p.CreatePool(v, "cusdc")
+		case 3:
+			edit := &trtypes.MsgRegister{From: adm.Addr.String(), Entry: &trtypes.RegistryEntry{Denom: "cusdc", BaseDenom: "cusdc", Decimals: 18, Permissions: all}}
+			rd := clptypes.NewMsgSwap(adm.Addr, clptypes.GetSettlementAsset(), clptypes.NewAsset("cusdc"), uintOf(pow10(18)), sdk.ZeroUint())
+			p.Tx("multi.registry.redecimal+swap+send.toomuch", adm, edit, &rd, tooMuch())
+			swapTo(u, "ceth", "clp.swap")
+		case 4:
+			p.CreatePool(u, "cdai")
+			swapTo(v, "cusdc", "clp.swap")
+		default:
+			if ps := p.pools(); len(ps) > 0 {
+				p.Swap(u, ps, false)
+				p.AddLiquidity(v, ps[p.R.Intn(len(ps))])
+			}
+			p.EditReadFail()
+		}
+		p.End()
+		if b >= 0 {
+			p.Spec.RestartBefore = append(p.Spec.RestartBefore, len(p.Spec.Blocks))
+		}
+	}
+	return p
+}
+
 // restartGasProbe attributes the extra BeginBlock gas of a restarted node: it replays the history up to the
 // first restart point on two chains, restarts one of them, and runs the two BeginBlockers that keep
 // process-local "already done" state on a context with a fresh infinite gas meter.
@@ -509,6 +567,7 @@ func init() {
 			func() (*Pilot, string) { return mainHistory(seed, rng, blocks), "main" },
 			func() (*Pilot, string) { return dewhitelistHistory(seed, rng), "oracle-dewhitelist-tie" },
 			func() (*Pilot, string) { return restartVBHistory(seed, rng), "restart-validatebasic" },
+			func() (*Pilot, string) { return poollessHistory(seed, rng), "poolless-prefix" },
 			func() (*Pilot, string) { return ghostHistory(seed, rng, false), "genesis-lps-without-accounts.lppd" },
 			func() (*Pilot, string) { return ghostHistory(seed, rng, true), "genesis-lps-without-accounts.epoch" },
 		} {
